@@ -28,6 +28,7 @@ REQUIRED = {"suite_runs": 1, "contract_evaluate_evaluated": 2000, "dominance_pai
             "dtype[int8]": 1, "dtype[int16]": 1, "dtype[int32]": 1,
             "dtype[int64]": 1}
 MON = None
+INT64_MAX = 2 ** 63 - 1
 
 
 # the repository's own tests as a further workload, observed by the
@@ -145,6 +146,19 @@ def one_instance(ctx, desc):
                     "pool": [[t, r, kk] for t, r, kk in
                              (pool[j] for j in (order + extra)[:pos + 1])],
                     "objective": key}
+            if want[key] > INT64_MAX:
+                # the documented value does not fit the kernels' 64 bit
+                # arithmetic: one mechanism, judged on its own
+                ctx.count("documented_value_beyond_int64")
+                if v != want[key]:
+                    ctx.violation(
+                        f"objective-value-beyond-int64:{key}",
+                        f"{key} = {v}, documented value {want[key]} > 2^63-1 "
+                        f"(bin {desc['W']}x{desc['H']}, {k} bins)", case)
+                    values[i][key] = want[key]
+                    continue
+            if want[key] > 2 ** 53:
+                ctx.count("documented_value_beyond_2^53")
             if v != want[key]:
                 # also recorded by the contract; this one carries the history
                 ctx.violation(f"objective-value-in-history:{key}",
@@ -182,7 +196,12 @@ def one_instance(ctx, desc):
     tag, rows, k = pool[int(ctx.rng.integers(len(pool)))]
     y = wb.to_packing(inst, rows, k)
     key = str(ctx.rng.choice(sorted(objs)))
-    bf = po.objective_values(desc, rows)[key]
+    allv = po.objective_values(desc, rows)
+    if max(allv.values()) > INT64_MAX:
+        # PackingResult evaluates all objectives: same mechanism as above
+        ctx.count("packing_result_skipped_beyond_int64")
+        return
+    bf = allv[key]
     er = EndResult("algo", inst.name, key, None, 1, bf, 1, 1, 2, 2, None,
                    None, None)
     ctx.case()
@@ -210,7 +229,7 @@ def one_instance(ctx, desc):
 def run_shard(ctx, args):
     rng = ctx.rng
     classes = ["tiny", "general", "itembin", "forcedrot", "general", "dtype",
-               "smallgrid", "smallgrid", "unit", "shipped"]
+               "smallgrid", "smallgrid", "unit", "shipped", "hugebin"]
     names = None
     for it in range(args["n"]):
         cls = classes[it % len(classes)]
